@@ -58,6 +58,7 @@ Definition pinned_compute_minmax_args : list string := [
   "        else:";
   "            current_coord = np.array(-1, dtype=coords.dtype)";
   "            found = False";
+  "            masked_reduce_coords = masked_reduce_coords[masked_data != fill_value]";
   "            for idx, new_coord in enumerate(np.nditer(np.sort(masked_reduce_coords))):";
   "                if new_coord - current_coord > 1:";
   "                    result_data.append(idx)";
@@ -74,7 +75,9 @@ Definition pinned_unique_counts : list string := [
   "    x = _validate_coo_input(x)";
   "    x = x.flatten()";
   "    values, counts = np.unique(x.data, return_counts=True)";
-  "    if x.nnz < x.size:";
+  "    if x.nnz < x.size and np.any(values == x.fill_value):";
+  "        counts[values == x.fill_value] += x.size - x.nnz";
+  "    elif x.nnz < x.size:";
   "        values = np.concatenate([[x.fill_value], values])";
   "        counts = np.concatenate([[x.size - x.nnz], counts])";
   "        sorted_indices = np.argsort(values)";
@@ -89,7 +92,7 @@ Definition pinned_unique_values : list string := [
   "    x = x.flatten()";
   "    values = np.unique(x.data)";
   "    if x.nnz < x.size:";
-  "        values = np.sort(np.concatenate([[x.fill_value], values]))";
+  "        values = np.unique(np.concatenate([[x.fill_value], values]))";
   "    return values"
 ].
 
@@ -174,7 +177,7 @@ Definition pinned_where : list string := [
   "    if not (x_given or y_given):";
   "        check_zero_fill_value(condition)";
   "        condition = asCOO(condition, name=str(np.where))";
-  "        return tuple(condition.coords)";
+  "        return tuple(condition.coords[:, condition.data != 0])";
   "    if x_given != y_given:";
   "        raise ValueError('either both or neither of x and y should be given')";
   "    return elemwise(np.where, condition, x, y)"
@@ -185,5 +188,5 @@ Definition pinned_COO_nonzero : list string := [
   "    check_zero_fill_value(self)";
   "    if self.ndim == 0:";
   "        raise ValueError('`nonzero` is undefined for `self.ndim == 0`.')";
-  "    return tuple(self.coords)"
+  "    return tuple(self.coords[:, self.data != 0])"
 ].
